@@ -90,6 +90,18 @@ func producersOf(c *Ctx, v ssa.Value, seen map[ssa.Value]bool, depth int) []*ssa
 	case *ssa.ChangeType:
 		return producersOf(c, x.X, seen, depth)
 	case *ssa.Extract:
+		// one result of a module function: follow that result of its returns
+		if call, ok := x.Tuple.(*ssa.Call); ok {
+			if f := call.Call.StaticCallee(); f != nil && inModule(f) && f.Blocks != nil {
+				var out []*ssa.Call
+				for _, b := range f.Blocks {
+					if ret, ok := b.Instrs[len(b.Instrs)-1].(*ssa.Return); ok && x.Index < len(ret.Results) {
+						out = append(out, producersOf(c, ret.Results[x.Index], seen, depth+1)...)
+					}
+				}
+				return out
+			}
+		}
 		return producersOf(c, x.Tuple, seen, depth)
 	case *ssa.Call:
 		f := x.Call.StaticCallee()
@@ -1061,48 +1073,69 @@ func ruleSliceBounds(c *Ctx, rule string) {
 	lenRepl := linAtom(srcN+".End()").add(linAtom(srcN+".Start()"), -1)
 	norm := func(l lin) lin { return l.subst(lenAtom, lenRepl) }
 	n := 0
-	for _, b := range fn.Blocks {
-		for _, ins := range b.Instrs {
-			call, ok := ins.(*ssa.Call)
-			if !ok || !call.Call.IsInvoke() || call.Call.Method.Name() != "Slice" || len(call.Call.Args) != 2 {
-				continue
-			}
-			if symName(call.Call.Value, nil) != srcN+".Slice()" {
-				continue
-			}
-			n++
-			c.Funcs[funcName(fn)] = true
-			key := fmt.Sprintf("sequtils.Truncate/Slice#%d", n)
-			var facts []lin
-			for _, bf := range branchesAt(b) {
-				if f, ok := strictForm(bf.cond, bf.edge, nil); ok {
-					facts = append(facts, norm(f))
+	// analyse f (Truncate, or a private helper it hands the work to) with the
+	// caller's names for the helper's parameters and the facts that hold at the call
+	var analyse func(f *ssa.Function, env *linEnv, inherited []lin, depth int)
+	analyse = func(f *ssa.Function, env *linEnv, inherited []lin, depth int) {
+		for _, b := range f.Blocks {
+			for _, ins := range b.Instrs {
+				call, ok := ins.(*ssa.Call)
+				if !ok {
+					continue
 				}
-			}
-			lo, hi := norm(linOf(call.Call.Args[0], nil)), norm(linOf(call.Call.Args[1], nil))
-			L := norm(linAtom(lenAtom))
-			goals := []struct {
-				g    lin
-				what string
-			}{
-				{lo.scale(-1), "low bound " + lo.String() + " >= 0"},
-				{hi.add(L, -1), "high bound " + hi.String() + " <= length " + L.String()},
-				{lo.add(hi, -1), "low bound " + lo.String() + " <= high bound " + hi.String()},
-			}
-			failed := ""
-			for _, g := range goals {
-				if !provable(g.g, facts) {
-					failed = g.what
-					break
+				var facts []lin
+				facts = append(facts, inherited...)
+				for _, bf := range branchesAt(b) {
+					if ff, ok := strictForm(bf.cond, bf.edge, env); ok {
+						facts = append(facts, norm(ff))
+					}
 				}
-			}
-			if failed == "" {
-				c.ok(rule, key, call.Pos(), fmt.Sprintf("0 <= %s <= %s <= %s follows from the range checks that dominate the call", lo.String(), hi.String(), L.String()))
-			} else {
-				c.bad(rule, key, call.Pos(), "no dominating range check establishes "+failed+" (with End() == Start() + Len()): for some start/end the slice expression panics instead of Truncate returning its out-of-range error")
+				if g := call.Call.StaticCallee(); g != nil && g.Pkg == fn.Pkg && g.Blocks != nil && depth < 2 && g.Object() != nil && !g.Object().Exported() && len(g.Params) == len(call.Call.Args) {
+					sub := &linEnv{forms: map[*ssa.Parameter]lin{}, names: map[*ssa.Parameter]string{}}
+					for i, prm := range g.Params {
+						sub.names[prm] = symName(call.Call.Args[i], env)
+						if isIntegral(prm.Type()) {
+							sub.forms[prm] = linOf(call.Call.Args[i], env)
+						}
+					}
+					analyse(g, sub, facts, depth+1)
+					continue
+				}
+				if !call.Call.IsInvoke() || call.Call.Method.Name() != "Slice" || len(call.Call.Args) != 2 {
+					continue
+				}
+				if symName(call.Call.Value, env) != srcN+".Slice()" {
+					continue
+				}
+				n++
+				c.Funcs[funcName(f)] = true
+				key := fmt.Sprintf("sequtils.Truncate/Slice#%d", n)
+				lo, hi := norm(linOf(call.Call.Args[0], env)), norm(linOf(call.Call.Args[1], env))
+				L := norm(linAtom(lenAtom))
+				goals := []struct {
+					g    lin
+					what string
+				}{
+					{lo.scale(-1), "low bound " + lo.String() + " >= 0"},
+					{hi.add(L, -1), "high bound " + hi.String() + " <= length " + L.String()},
+					{lo.add(hi, -1), "low bound " + lo.String() + " <= high bound " + hi.String()},
+				}
+				failed := ""
+				for _, g := range goals {
+					if !provable(g.g, facts) {
+						failed = g.what
+						break
+					}
+				}
+				if failed == "" {
+					c.ok(rule, key, call.Pos(), fmt.Sprintf("0 <= %s <= %s <= %s follows from the range checks that dominate the call", lo.String(), hi.String(), L.String()))
+				} else {
+					c.bad(rule, key, call.Pos(), "no dominating range check establishes "+failed+" (with End() == Start() + Len()): for some start/end the slice expression panics instead of Truncate returning its out-of-range error")
+				}
 			}
 		}
 	}
+	analyse(fn, nil, nil, 0)
 	if n == 0 {
 		c.und(rule, "sequtils.Truncate/Slice", fn.Pos(), "no Slice call on the source's letters found")
 	}
@@ -1396,8 +1429,17 @@ func ruleBorderCover(c *Ctx, rule string, fns []*ssa.Function, needRow, needCol 
 		for _, b := range fn.Blocks {
 			for _, ins := range b.Instrs {
 				ia, ok := ins.(*ssa.IndexAddr)
-				if !ok || ia.X != ssa.Value(table) {
+				if !ok {
 					continue
+				}
+				// the table itself, or a row view table[i*c:(i+1)*c] of it
+				var rowLow ssa.Value
+				if ia.X != ssa.Value(table) {
+					sl, isSl := ia.X.(*ssa.Slice)
+					if !isSl || sl.X != ssa.Value(table) || sl.Low == nil {
+						continue
+					}
+					rowLow = sl.Low
 				}
 				written := false
 				for _, r := range *ia.Referrers() {
@@ -1416,6 +1458,13 @@ func ruleBorderCover(c *Ctx, rule string, fns []*ssa.Function, needRow, needCol 
 					continue
 				}
 				idx := ia.Index
+				if rowLow != nil {
+					// element 0 of the view of row i is cell i*c: a first-column write
+					if k, ok := constIntVal(idx); !ok || k != 0 {
+						continue
+					}
+					idx = rowLow
+				}
 				if k, ok := constIntVal(idx); ok {
 					row0 = append(row0, cellRange{k, linConst(k + 1), ia.Pos()})
 					continue
@@ -2158,9 +2207,10 @@ func ruleWindowPos(c *Ctx, rule string) {
 		c.und(rule, key, fn.Pos(), "the callback call was not found")
 		return
 	}
-	P, a, ok := linearIn(call.Call.Args[1])
+	env0 := &linEnv{noInline: true}
+	P, aForm, ok := phiPlusForm(call.Call.Args[1], env0)
 	if !ok {
-		c.und(rule, key, call.Pos(), "the reported position is not a loop counter plus a constant")
+		c.und(rule, key, call.Pos(), "the reported position is not a loop counter plus an offset")
 		return
 	}
 	var loop *ssaLoop
@@ -2224,7 +2274,7 @@ func ruleWindowPos(c *Ctx, rule string) {
 	}
 	env := &linEnv{noInline: true}
 	kAtom := fn.Params[0].Name() + ".k"
-	lhs := linOf(iP, env).add(linConst(a-1), 1).add(linAtom(kAtom), 1) // position + k - 1
+	lhs := linOf(iP, env).add(aForm, 1).add(linConst(-1), 1).add(linAtom(kAtom), 1) // position + k - 1
 	rhs := linOf(iB, env).add(linConst(r), 1)                          // subscript of the letter just read
 	d := lhs.add(rhs, -1)
 	switch {
